@@ -334,3 +334,7 @@ pub(crate) fn exists_subquery_has_rows<S: GraphSnapshot>(
         None => Ok(false),
     }
 }
+
+#[cfg(kani)]
+#[path = "/verif/kani/query/query_api.rs"]
+mod kani_harness;
